@@ -368,7 +368,7 @@ def prepare(tier):
 META = dict(
     explanation="symbolic execution with caller-owned symbolic arrays compared term-by-term before/after each call on every feasible path; "
                 "the real nr_* orchestration batched vs separate and one vs two grid blocks; call histories on one plan/kernel object vs fresh objects",
-    functions=['ciderpress/pyscf/sdmx.py: EXXSphGenerator._contract_ao_to_bas, _contract_ao_to_bas_bwd, _contract_ao_to_bas_helper, _contract_ao_to_bas_single_ + fast_sdmx.c SDMXcontract_ao_to_bas(_l1)(_bwd) interpreted (history/sdmx_generator/*)', "ciderpress/dft/settings.py: get_cider_exponent(_gga), get_s2, ds2, get_alpha, dalpha", "ciderpress/dft/transform_data.py: all fill_feat_/fill_deriv_",
+    functions=['ciderpress/pyscf/numint.py: nr_rks / nr_uks / nr_rks_nldf / nr_uks_nldf with an SDMX generator present (batch/*/with_sdmx, blocking/*/with_sdmx; generator = contract stub with the real cache and 2-d / 3-d conventions)', 'ciderpress/pyscf/sdmx.py: EXXSphGenerator._contract_ao_to_bas, _contract_ao_to_bas_bwd, _contract_ao_to_bas_helper, _contract_ao_to_bas_single_ + fast_sdmx.c SDMXcontract_ao_to_bas(_l1)(_bwd) interpreted (history/sdmx_generator/*)', "ciderpress/dft/settings.py: get_cider_exponent(_gga), get_s2, ds2, get_alpha, dalpha", "ciderpress/dft/transform_data.py: all fill_feat_/fill_deriv_",
                "ciderpress/dft/feat_normalizer.py: FeatNormalizerList.*", "ciderpress/dft/plans.py: SemilocalPlan.get_feat/get_vxc, NLDFAuxiliaryPlan.eval_rho_full/eval_vxc_full",
                "ciderpress/pyscf/numint.py: eval_xc_cider, nr_rks, nr_uks, nr_rks_nldf, nr_uks_nldf, CiderNumInt.contract_wv, _tau_dot_sparse",
                "ciderpress/models/kernels.py: _SubsetMixin/_SpinSymMixin lock flag"],
